@@ -3,7 +3,7 @@
    recorded call on the model.  Static; the generated ValidateCasesGen.v imports it. *)
 From Coq Require Import List NArith ZArith Bool Uint63.
 Import ListNotations.
-From Verif Require Import ValidateModel.
+From Verif Require Import ValidateModel ValidateCtorModel.
 Local Open Scope N_scope.
 
 Definition i2n (i : int) : N := Z.to_N (Uint63.to_Z i).
@@ -91,6 +91,8 @@ Definition row_model (ps : list vparams) (s : summary) (i : N) : N :=
 Definition lim_model (ps : list vparams) (s : summary) (bi j v : N) : N :=
   code_of_vres (validate (set_one_limit (getp ps bi) j v) s).
 
+Definition first_key (x : expr) : keyinfo :=
+  hd (mkKey 0 false false 1) (all_keys (s_nodes (x_sum x))).
 Definition entry_model (ps : list vparams) (c : ctx) (x : expr) (e i : N) : N :=
   code_of_epres
     match e with
@@ -101,6 +103,15 @@ Definition entry_model (ps : list vparams) (c : ctx) (x : expr) (e i : N) : N :=
     | 20 => descriptor_from_str_inner c x
     | 24 => descriptor_from_str_inner CSegwitv0 x
     | 21 | 26 | 27 => wrapper_new c (x_sum x)
+    (* constructor stream (verif-harness validate ctors): 28 = Wsh::new_sortedmulti (c = Segwitv0) /
+       Sh::new_sortedmulti (c = Legacy) and the Descriptor:: shorthands, 29 = Sh::new_wsh_sortedmulti;
+       33 = Pkh::new, 34 = Wpkh::new / Sh::new_wpkh, 35 = Tr::new(key, None) on the first key *)
+    | 28 => new_sortedmulti c x
+    | 29 => new_sortedmulti CSegwitv0 x
+    | 36 => new_sortedmulti c x   (* Wsh|Sh|Bare::new(Miniscript::from_ast(Terminal::(Sorted)Multi(thresh))?) *)
+    | 33 => key_ctor CBare (first_key x)
+    | 34 => key_ctor CSegwitv0 (first_key x)
+    | 35 => key_ctor CTap (first_key x)
     | 22 => tr_leaf_from_tree x
     | 23 => descriptor_from_str_inner CTap x
     | 25 => tr_new_leaf (x_sum x)
